@@ -65,6 +65,8 @@ add("cv_gen2_g", ["C04"], "t", progs=[P("L", cvl(v=1, dl=1, x=9), "U"), P("G1", 
 add("mw_to_g", ["C05"], "q", progs=[P("L", mwt(1), "U"), P("G1", "L", mwt(1, dl=1), "U"), P("G2", "L", "set11", "U")], NV=1, conds=C1, MaxNow=1)
 add("mw_eq3_g", ["C06"], "t", progs=[P("L", mwt(1), "U"), P("G1", "L", mwt(3), "U"), P("G2", "L", mwt(4), "U"), P("G3", "L", "set21", "U")], NV=2, conds=CS)
 add("mw_3c_g", ["C06"], "t", progs=[P("L", mwt(1), "U"), P("G1", "L", mwt(2), "U"), P("G2", "L", mwt(3), "U"), P("G3", "L", "set21", "U", "L", "set11", "U")], NV=2, conds=CS)
+# two writer-mode waiters with different conditions made true by one critical section; the first one woken leaves with unlock_without_wakeup
+add("mw_uw2_g", ["C06"], "q", progs=[P("L", mwt(1), "UW"), P("G1", "L", mwt(3), "U"), P("G2", "L", "set11", "set21", "U")], NV=2, conds=CS)
 add("mw_rdall_g", ["C06"], "q", progs=[P("L", mwt(1), "U"), P("G1", "R", "RU", "R", "RU"), P("G1", "L", "set11", "U")], NV=1, conds=C1)
 # ---- nsync_wait_n on a cv (C04 C11 C13) ----
 add("wn_in", ["C04", "C11", "C13"], "q", progs=[P("L", wnl(v=1, dl=1), "U"), P("L", "set11", "S", "U")], NV=1, MaxNow=1)
@@ -74,6 +76,8 @@ add("wn_mixed", ["C04", "C11", "C13"], "t", progs=[P("L", wnl(v=1, dl=1), "U"), 
 # ---- conditional critical sections (C06 C05 C01) ----
 add("mw_1", ["C06"], "q", progs=[P("L", mwt(1), "U"), P("L", "set11", "U")], NV=1, conds=C1)
 add("mw_timed", ["C06", "C05", "C01"], "q", progs=[P("L", mwt(1, dl=1), "U"), P("L", "set11", "U")], NV=1, conds=C1, MaxNow=1)
+# the condition is made true and, before the timed-out waiter gets the lock back, false again
+add("mw_flip", ["C05", "C06"], "q", progs=[P("L", mwt(1, dl=1), "U"), P("L", "set11", "U", "L", "set10", "U")], NV=1, conds=C1, MaxNow=1)
 add("mw_rd", ["C06", "C05", "C01"], "q", progs=[P("R", mwt(1, dl=1), "RU"), P("L", "set11", "U")], NV=1, conds=C1, MaxNow=1)
 add("mw_cancel", ["C05", "C06"], "q", progs=[P("L", mwt(1, cn=True), "U"), P("N")], NV=1, conds=C1)
 add("mw_ww", ["C06"], "q", progs=[P("L", mwt(1), "U"), P("L", "UW", "L", "set11", "U")], NV=1, conds=C1)
